@@ -277,7 +277,8 @@ def _seq_program(seq, dbl):
             k += 1
             cur["items"].append(["c", "cd" if k % 2 else "e "])
         elif a == "S":
-            cur["items"].append(["sp", 7])
+            k += 1
+            cur["items"].append(["sp", 7 if k % 2 else 0])     # never the same code twice in a row
         elif a == "X":
             cur["items"].append(["ex", 0x12, 1, "E"])
         elif a == "I":
